@@ -3,6 +3,9 @@ package main
 import (
 	"bytes"
 	"fmt"
+	"time"
+
+	"mosn.io/mosn/pkg/types"
 
 	. "vh/vhlib"
 )
@@ -366,6 +369,101 @@ func c01(args []string) int {
 			if !bytes.Equal(s.uGot, s.cSent) || !bytes.Equal(s.cGot, s.uSent) {
 				run.Fail("relay:e2e:parallel:stream-mismatch", fmt.Sprintf("session %d of %d simultaneous ones: client sent %d bytes, upstream got %d [..%s vs ..%s]; upstream sent %d, client got %d", i, p, len(s.cSent), len(s.uGot), clip(s.cSent), clip(s.uGot), len(s.uSent), len(s.cGot)), rep)
 			}
+		}
+	}
+
+	// ---------------------------------------------------------------- (d) the write deadline
+	{
+		// (1) probes: for every Write of the relaying connection, the deadline armed at that moment must be (the time of the
+		// write) + DefaultConnWriteTimeout - also for a write that follows an earlier one after a pause
+		wms := types.DefaultConnWriteTimeout.Milliseconds()
+		const tolMs = 25
+		dsh := run.NewShard("From MV Require Import Model.RelayDeadline Gen.RelaySrc.\nFrom Coq Require Import List ZArith.\nImport ListNotations.\nOpen Scope Z_scope.\n",
+			"list dl_obs", fmt.Sprintf("dl_mismatches write_deadline_fresh %d %d", wms, tolMs))
+		for i := 0; i < run.N(4, 40); i++ {
+			var p *dlProbe
+			bad := -1
+			for attempt := 0; attempt < 3; attempt++ { // a descheduled goroutine between arming and writing: look again
+				var err error
+				if p, err = runDeadlineProbe(e, r); err != nil {
+					fmt.Println("deadline probe failed to run:", err)
+					return 2
+				}
+				bad = -1
+				for k := range p.StartMs {
+					if p.DeadlineMs[k] < 0 || p.DeadlineMs[k]-p.StartMs[k] < wms-tolMs || p.DeadlineMs[k]-p.StartMs[k] > wms+tolMs {
+						bad = k
+					}
+				}
+				if bad < 0 {
+					break
+				}
+			}
+			run.Count(fmt.Sprintf("dl|%d|%v", i, p.PausesMs), true, "write-deadline-probe")
+			rep := map[string]interface{}{"part": "relay-write-deadline-probe", "probe": p, "write_timeout_ms": wms}
+			if bad >= 0 {
+				run.Fail("relay:write-deadline-not-armed-afresh", fmt.Sprintf("write %d of a relaying connection started at %d ms with the deadline at %d ms: %d ms ahead instead of the write time-out %d ms (three runs)", bad, p.StartMs[bad], p.DeadlineMs[bad], p.DeadlineMs[bad]-p.StartMs[bad], wms), rep)
+			}
+			var obs []string
+			for k := range p.StartMs {
+				obs = append(obs, fmt.Sprintf("mkDl %d %d", p.StartMs[k], p.DeadlineMs[k]))
+			}
+			dsh.Add(CoqList(obs), rep)
+		}
+		dsh.Close()
+
+		// (2) a busy receiver behind a relay whose connection wrote something shortly before
+		oldW := types.DefaultConnWriteTimeout
+		stallCase := func(dir string, wMs int, d1f, d2f float64) (stallSpec, *stallResult, error) {
+			sp := stallSpec{Dir: dir, WMs: wMs, D1Ms: int(float64(wMs) * d1f), D2Ms: int(float64(wMs) * d2f), BurstMB: 12}
+			types.DefaultConnWriteTimeout = time.Duration(wMs) * time.Millisecond
+			defer func() { types.DefaultConnWriteTimeout = oldW }()
+			res, err := runStall(e, sp)
+			return sp, res, err
+		}
+		for _, dir := range []string{"c2u", "u2c"} {
+			var sp stallSpec
+			var res *stallResult
+			failed := false
+			// d2 < W: must arrive completely.  A failure is re-examined with a two and four times longer time-out (the
+			// margins grow with it): a machine that was merely slow passes then, an inherited deadline fails at every scale.
+			bad := func(res *stallResult) bool { return res.Got != res.Want || !res.ContentOK || res.Problem != "" }
+			for _, w := range []int{400, 800, 1600} {
+				var err error
+				if sp, res, err = stallCase(dir, w, 0.6, 0.65); err != nil {
+					fmt.Println("stall case failed to run:", err)
+					return 2
+				}
+				if failed = bad(res); !failed {
+					break
+				}
+			}
+			if run.Thorough() && !failed && dir == "c2u" { // once with the real 15 s
+				var err error
+				if sp, res, err = stallCase(dir, int(oldW.Milliseconds()), 0.6, 0.65); err != nil {
+					fmt.Println("stall case failed to run:", err)
+					return 2
+				}
+				failed = bad(res)
+			}
+			run.Count(fmt.Sprintf("stall|%s|%d", dir, sp.WMs), true, "busy-receiver:"+dir)
+			rep := map[string]interface{}{"part": "relay-busy-receiver", "spec": sp, "result": res}
+			run.Sample(rep)
+			if res.AtStallEnd >= res.Want {
+				run.Sum.Distribution["busy-receiver:write-never-blocked"]++
+			}
+			if failed {
+				run.Fail("relay:stream-truncated:write-timeout-inherited-from-earlier-write", fmt.Sprintf("%s: a small write, a pause of %d ms, then a %d MB burst while the receiver was busy for %d ms (write time-out %d ms): %d of %d bytes arrived, clean end=%v, upstream close events %q %s", dir, sp.D1Ms, sp.BurstMB, sp.D2Ms, sp.WMs, res.Got, res.Want, res.CleanEnd, res.UpstreamClose, res.Problem), rep)
+			}
+		}
+		// control: the receiver busy for longer than the write time-out - the time-out mechanism is alive (no verdict)
+		if sp, res, err := stallCase("c2u", 300, 0.3, 1.6); err == nil {
+			out := "complete"
+			if res.Got != res.Want {
+				out = "cut-by-write-timeout"
+			}
+			run.Count("stall-control", true, "busy-receiver:longer-than-timeout:"+out)
+			_ = sp
 		}
 	}
 
